@@ -140,7 +140,7 @@ pub fn gen_script(rng: &mut Rng, reqid: u32, token: &str, allow_faults: bool, tr
     let ipp_status = if rng.chance(3, 4) { 0x0000 } else { *rng.pick(&[0x0401u16, 0x0503, 0x0001, 0x0507]) };
     let ipp = ipp_response(rng, ipp_status, reqid, token, extra);
     let trailing = if rng.chance(1, 3) { gen_payload(rng, 4096) } else { vec![] };
-    let mut s = Script { status, framing: gen_framing(rng), ipp, trailing, segments: gen_segments(rng), fault: None, reset_request_after: None };
+    let mut s = Script { status, framing: gen_framing(rng), ipp, trailing, segments: gen_segments(rng), fault: None, reset_request_after: None, drip_ms: 0 };
     if allow_faults && rng.chance(1, 3) {
         let r = s.render();
         let body_len = r.body_len as u32;
@@ -237,6 +237,7 @@ fn check_request(rep: &mut RunReport, who: &str, r: &ReqRecord, cfg: &ClientCfg,
 
 /// the response-side oracle (clauses 4-7)
 fn check_response(rep: &mut RunReport, who: &str, res: &SendResult, s: &Script, request_complete: bool, stalled_timeout: bool) {
+    let stalled_timeout = stalled_timeout || s.drip_ms > 0;
     if let SendResult::Panic(p) = res {
         rep.violate("client-panicked", format!("{who}: {p}"));
         return;
@@ -248,6 +249,8 @@ fn check_response(rep: &mut RunReport, who: &str, res: &SendResult, s: &Script, 
         Some("connection reset while the request was being sent")
     } else if s.status >= 400 {
         Some("HTTP error status")
+    } else if s.drip_ms > 0 {
+        Some("the response took several times the configured request timeout to arrive")
     } else {
         match s.fault {
             Some(RespFault { at: FaultAt::Head(_), .. }) => Some("connection failed inside the HTTP status line / headers"),
@@ -563,6 +566,9 @@ impl C11 {
         if stalled {
             rep.count("tierB.stalled_printer_with_client_timeout", 1);
         }
+        if case.scripts.iter().any(|s| s.drip_ms > 0) {
+            rep.count("tierB.dripping_printer_exceeding_client_timeout", 1);
+        }
         rep.trace_hash = {
             let mut f = crate::rng::Fnv::default();
             f.bytes(serde_json::to_string(&(&case.cfg, &case.scripts)).unwrap_or_default().as_bytes());
@@ -632,8 +638,8 @@ impl Prop for C11 {
     }
     fn default_runs(&self, tier: Tier) -> u64 {
         match tier {
-            Tier::Quick => 40_000,
-            Tier::Thorough => 1_000_000,
+            Tier::Quick => 16_000,
+            Tier::Thorough => 400_000,
         }
     }
 
@@ -677,6 +683,18 @@ impl Prop for C11 {
                 _ => FaultAt::Body(rng.below(s.ipp.len() as u64) as u32),
             };
             s.fault = Some(RespFault { at, kind: RespFaultKind::Stall });
+        } else if transport == Transport::Tcp && n == 1 && rng.chance(1, 11) {
+            // a slow, never silent printer: every gap is shorter than the timeout, the whole answer takes ~4x the timeout
+            let t = rng.range(200, 300) as u32;
+            cfg.timeout_ms = Some(t);
+            let s = &mut scripts[0];
+            s.status = 200;
+            s.reset_request_after = None;
+            s.fault = None;
+            let r = s.render();
+            let upto = r.raw_of_body(s.ipp.len().saturating_sub(1)) + 1;
+            s.segments = vec![((upto + 9) / 10).max(1) as u32];
+            s.drip_ms = t * 2 / 5;
         } else if rng.chance(1, 4) {
             // a timeout that never fires must not change anything
             cfg.timeout_ms = Some(30_000);
@@ -787,7 +805,7 @@ impl Prop for C11 {
     }
 
     fn rule(&self) -> String {
-        "Tier A (7 of 8 runs): the real IppClient::send (ureq agent, header loop, streaming chunked body, IppParser on the response reader) over an in-memory transport installed through the cfg(ipp_verif) hook; every transport read/write is scripted: short writes, response segmentation, framing (content-length / chunked with seeded chunk sizes / close-delimited), status (200 or 18 4xx/5xx codes), one fault (cut, I/O error kind or read time-out at an offset classified as HTTP head / IPP header / attributes / trailing data; or reset while the request is being written); request payload from a fragmented SimRead with EINTR; 1 of 6 runs has 2-6 concurrent senders through one shared client under the seeded baton scheduler (one thread runs at a time, every transport call is a yield point). Tier B (every 8th run): IppClient and AsyncIppClient against the same scripted printer over real loopback TCP, plus the stalled-printer + request_timeout clause. Oracles: exactly one POST per send to path+query with Host, content-type, every custom header, Basic credentials; de-chunked body == to_bytes() of the sent instance ++ payload; 2xx + complete => Ok equal to the unfragmented parse of the scripted IPP bytes and identical trailing data; 4xx/5xx, failure before the end of the attributes, reset during the request, or stall + timeout => Err; failure inside trailing data => attributes equal and trailing data a prefix; each concurrent sender gets the response carrying its own token. distinct_nontrivial = distinct hashes of the transport call sequence (+ baton order) [tier A] or of (configuration, scripts, outcome classes) [tier B] among runs with a payload, a fault, an error status or several senders."
+        "Tier A (7 of 8 runs): the real IppClient::send (ureq agent, header loop, streaming chunked body, IppParser on the response reader) over an in-memory transport installed through the cfg(ipp_verif) hook; every transport read/write is scripted: short writes, response segmentation, framing (content-length / chunked with seeded chunk sizes / close-delimited), status (200 or 18 4xx/5xx codes), one fault (cut, I/O error kind or read time-out at an offset classified as HTTP head / IPP header / attributes / trailing data; or reset while the request is being written); request payload from a fragmented SimRead with EINTR; 1 of 6 runs has 2-6 concurrent senders through one shared client under the seeded baton scheduler (one thread runs at a time, every transport call is a yield point). Tier B (every 8th run): IppClient and AsyncIppClient against the same scripted printer over real loopback TCP, plus the two request_timeout clauses: a stalled printer, and a printer that drips its answer with gaps shorter than the timeout but a total of ~4x the timeout. Oracles: exactly one POST per send to path+query with Host, content-type, every custom header, Basic credentials; de-chunked body == to_bytes() of the sent instance ++ payload; 2xx + complete => Ok equal to the unfragmented parse of the scripted IPP bytes and identical trailing data; 4xx/5xx, failure before the end of the attributes, reset during the request, or stall / slow drip beyond the timeout => Err; failure inside trailing data => attributes equal and trailing data a prefix; each concurrent sender gets the response carrying its own token. distinct_nontrivial = distinct hashes of the transport call sequence (+ baton order) [tier A] or of (configuration, scripts, outcome classes) [tier B] among runs with a payload, a fault, an error status or several senders."
             .into()
     }
     fn assumptions(&self) -> Vec<String> {
